@@ -116,6 +116,14 @@ func (r *storeRun) resolve(mb, ref string) (id string, m *model.Msg, kind string
 	case "":
 		return "", nil, "empty-id"
 	}
+	if strings.HasPrefix(ref, "0#") || strings.HasPrefix(ref, "+#") {
+		// a different spelling of an issued id: never issued itself
+		k, _ := strconv.Atoi(ref[2:])
+		if k > len(r.ids[mb]) {
+			return "never-" + ref, nil, "unknown-id"
+		}
+		return ref[:1] + r.ids[mb][k-1], nil, "unknown-id"
+	}
 	k, _ := strconv.Atoi(ref[1:])
 	if k > len(r.ids[mb]) {
 		return "never-" + ref[1:], nil, "unknown-id"
